@@ -19,6 +19,21 @@ CHECKS = {
              'the Python decoder; correspondence run of real decode vs Py.decode; property oracle decode(encode(v)) on real objects.',
         note='Composite round trip induction is the stated target; greedy tails not ending aligned are excluded as the property says.',
         technique='Lean 4 proof over an executable model + differential correspondence with the real codec', ref='5/C02'),
+    'C04': dict(
+        text='Lean 4 theorems relating the three layout computations (Spec of docs/encoding.rst, model of prophy/generators.py '
+             'add_attributes, model of prophyc/model.py evaluate_sizes) and table obligations over BUILTIN_SIZES/DISC_SIZE/ENUM_SIZE '
+             'regenerated from the source; correspondence of the prophyc model against the nodes returned by the real prophyc.main(); '
+             'the property itself is evaluated on the real tool: node size/alignment/kind vs Spec, Python statics vs Spec, message '
+             'length implied by the signed paddings vs canonical length, len(encode()) of fixed types.',
+        note='C++ constants (encoded_byte_size, sizeof) are compared in the C05/C08 driver batches. Float division in evaluate_union_size is modelled as integer division (exact below 2^53).',
+        technique='Lean 4 proof over executable models + differential correspondence with prophyc.main()', ref='5/C04'),
+    'C06': dict(
+        text='Lean 4 theorems about the decoder model in which exceptions are data (the length guard makes struct.error unreachable '
+             'for every buffer and position; decoded counters never exceed the guard extracted from the source); correspondence of '
+             'Py.decode against the real decoder on a malformed stream (every prefix, corruptions, random) and the property oracle '
+             '(only ProphyError; result encodes; decode(encode()) fixpoint; time bound) on the real code.',
+        note='Full induction over schemas is the stated target. Known finding D21 (greedy tail not ending aligned) is matched by signature. Wall time / memory are runtime facts measured by the harness, not theorems.',
+        technique='Lean 4 proof over an executable model + differential correspondence on malformed inputs', ref='5/C06'),
     'C19': dict(
         text='Lean 4 theorems: for every chunk list (hence every message of every schema) the big-endian rendering is the little-endian '
              'one with each scalar reversed in place, same length, every padding byte zero. The real Python LE/BE outputs are checked '
